@@ -12,6 +12,7 @@ import numpy as np
 
 from vf import lops
 from vf.monitors import STATE
+from vf.oracles.algebra import Spec
 from vf.oracles import ndft as ONDFT
 from vf.common import Plan, crandn, held, violated, inconclusive, rng_for, nrm, inner, pick
 
@@ -136,6 +137,9 @@ def run_case(case):
                 sc = max(nrm(ref), opn * nrm(Ax_))
             else:
                 sc = nrm(ref) + 1e-3 * max(nrm(x), STATE.peak)
+                if "parts" in desc or "A" in desc:
+                    sc += 1e13 * Spec(lops.build, lops.scalar_value).noise(
+                        {"op": "N", "A": desc}, x)[1]
             e = nrm(got - ref) / sc if sc > 0 else nrm(got - ref)
             worst = max(worst, e)
             if not e <= tol:
